@@ -102,6 +102,38 @@ def r1(run, ctx):
                               'CircusSocket.bind_and_listen', g, node.ast,
                               '%s binds/listens on a socket outside bind_and_listen' % g.qualname)
     run.count('R1', n, 2, 'raw bind/listen calls')
+    # reloadconfig decides "socket changed" by comparing the section with s._cfg, so the
+    # snapshot must be the section exactly as read (no key consumed before it is taken)
+    lc = ctx.fn(S + 'load_from_config')
+    clc = ctx.cfg(lc)
+    snaps = [x for x in ctx.live_nodes(lc) if x.kind == 'stmt' and isinstance(x.ast, ast.Assign)
+             and any(isinstance(t, ast.Attribute) and t.attr == '_cfg' for t in x.ast.targets)]
+    if run.need('R1', snaps, 's._cfg snapshot in CircusSocket.load_from_config', lc,
+                'the socket does not remember its configuration: every reloadconfig closes and '
+                'rebinds it'):
+        p0 = lc.node.args.args[-1].arg
+        muts = []
+        for x in ctx.live_nodes(lc):
+            for c in x.calls():
+                if isinstance(c.func, ast.Attribute) and dotted(c.func.value) == p0 and \
+                        c.func.attr in ('pop', 'popitem', 'clear', 'update', 'setdefault'):
+                    muts.append(x)
+            if x.kind == 'stmt':
+                for t in astq.attr_targets(x.ast):
+                    if isinstance(t, ast.Subscript) and dotted(t.value) == p0:
+                        muts.append(x)
+        for sn in snaps:
+            before = [m for m in muts if clc.reachable(m, sn)]
+            run.check('R1', not before and p0 in astq.names_in(sn.ast.value),
+                      'the remembered socket configuration is the section as read', lc,
+                      before[0].ast if before else sn.ast,
+                      'the section dict is modified (%s) before the snapshot s._cfg is taken: '
+                      'reloadconfig sees the socket as changed on an unchanged file and closes / '
+                      'rebinds it' % (norm_text(before[0].ast) if before else ''),
+                      construct='config mutated before _cfg snapshot')
+    rf = ctx.fn(A + 'reload_from_config')
+    run.check('R1', astq.has_pattern(rf.node, '$n[$k] != $s._cfg'), 'reloadconfig compares the '
+              'section with that snapshot', rf, rf.node)
     # close
     cl = ctx.fn(S + 'close')
     ca = ctx.fn(SS + 'close_all')
